@@ -17,7 +17,7 @@ CLAIMS = {
         note="Structural obligations are syntactic facts about the real text, reported as such. Assumed: rusqlite transaction semantics, crsql_peek_next_db_version, tiling of the chunker (proved under C08).",
     ),
     "C09": dict(
-        technique="Verus contracts on the extracted hand-written speedy decoders (totality stand-ins: panic / reservation / unchecked-UTF-8 obligations) and on the real pack_columns / unpack_columns against a spec of the documented key format; Kani complete proof of the packed-integer width rule; replay searches on the real crate",
+        technique="Verus contracts on the extracted hand-written speedy decoders (totality stand-ins: panic / reservation / unchecked-UTF-8 obligations) and on the real pack_columns / unpack_columns against a spec of the documented key format; Kani complete proof of the packed-integer width rule; structural obligation that every Vec<E> decoded by speedy itself has an element of positive minimum encoded size; replay searches on the real crate (in a child process for aborts)",
         text="Unbounded proof (any input length) that the four hand-written decoders cannot reach a panic, only reserve memory bounded by a constant or by the bytes left in the reader, and only build Text from validated UTF-8; full-domain proof that num_bytes_needed_i64 is the extension's minimal big-endian width; unbounded proof that unpack_columns is total and returns exactly what the documented packed-key format decodes to (zero-extended integers/lengths) and that pack_columns emits exactly that format for up to 255 columns. A machine-checked lemma composes the two contracts: decoding the encoding of any column list (<= 255 columns) gives back exactly that list. Derived (speedy-derive) codecs, frame-size limits and peak RSS are not decided.",
         note="Assumed: speedy Reader and primitive/derived Readable impls are total and consume their minimum size; generic reader/error types replaced by concrete stand-ins; `bytes` crate as compiled by Kani.",
     ),
@@ -27,8 +27,8 @@ CLAIMS = {
         note="Assumed: ordered IndexMap stand-ins; TableName opaque; candidates reach batch_candidates; pk unpacking (C09).",
     ),
     "C10": dict(
-        technique="Verus contracts on anchored fragments of the real ingest loop (duplicate suppression, drop-oldest eviction with loop invariant, cache insertion) and of process_multiple_changes' cleared decision",
-        text="Proof for all cache contents / changesets / actor ids that a changeset is suppressed only if the seen-cache covers all of its (actor, version, seq)s, that after a queue-full drop the cache no longer covers the dropped changeset (under its own actor id) and other entries are untouched, that insertion adds exactly the offered seqs, and that a version is booked as Cleared only for a complete and empty changeset. Liveness (applied after finitely many offers) and JoinSet/back-pressure timing are not decided.",
+        technique="Verus contracts on anchored fragments of the real ingest loop (duplicate suppression, drop-oldest eviction with loop invariant, cache insertion), of process_multiple_changes' cleared decision and in-transaction skip, and on the real BookedVersions::contains/contains_all; structural obligation that the loops over offered changesets have no early exit",
+        text="Proof for all cache contents / changesets / actor ids that a changeset is suppressed only if the seen-cache covers all of its (actor, version, seq)s, that after a queue-full drop the cache no longer covers the dropped changeset (under its own actor id) and other entries are untouched, that insertion adds exactly the offered seqs, that a version is booked as Cleared only for a complete and empty changeset, that a changeset is passed over inside the write transaction iff the node already holds all of it (contains_all == every version known and every offered seq received) and that this never abandons the changesets queued behind it. Liveness (applied after finitely many offers) and JoinSet/back-pressure timing are not decided.",
         note="Assumed: IndexMap/VecDeque stand-ins; let-chains desugared; queue/cost accounting invariant as precondition; well-ordered seq ranges (an inverted range from a peer would panic rangemap at the cache insertion — noted in DESIGN).",
     ),
     "C03": dict(
@@ -37,13 +37,13 @@ CLAIMS = {
         note="Change payloads opaque. The gap tests inside process_fully_buffered_changes / startup and the SQL seq-range merge are not yet under contract.",
     ),
     "C05": dict(
-        technique="Verus contracts on anchored fragments of the real sync server (process_sync pre-filter, handle_need empties decisions, partial-range clipping) + the literal SQL overlap clause translated to a spec fn and proved equivalent to interval overlap",
+        technique="Verus contracts on anchored fragments of the real sync server (process_sync pre-filter, handle_need empties decisions, partial-range clipping), on the whole send_change_chunks against the chunker's proved contract, + the literal SQL overlap clause translated to a spec fn and proved equivalent to interval overlap; structural obligations (one read transaction per need, SQL scoped per actor)",
         text="Proof, for all version ranges and bookkeeping states, that a need is skipped iff the server holds none of the requested versions (so held versions are answered and unknown ones are met with silence), that a version is declared empty iff it is neither buffered nor a known gap, and that the seq range sent for a buffered partial is exactly (buffered row) ∩ (requested range), rows being selected by SQL iff they overlap. Safety guards only: SQL result contents and the chunk tiling across calls (see C08) are not decided here.",
         note="Assumed: `buffered`/`in_gaps` are the EXISTS sub-query results; stand-ins for Option::is_some_and / RangeInclusive::all keep the real closures; SQL fragment translated by vx/sqlpred.py (trusted), SQLite integer semantics mathematical.",
     ),
     "C16": dict(
-        technique="Verus contracts on four anchored fragments of the real code (uni payload dispatch, serve_sync prologue, sync-candidate filter closure, broadcast-target filter closure), extracted each run",
-        text="Proof, for all cluster ids / members / payloads, of the four decision sites: a broadcast change is queued iff its payload's cluster id equals ours; serve_sync ends with exactly one Rejection(DifferentCluster) message and no data for a foreign cluster id; sync candidates and broadcast targets are other members of the same cluster. End-to-end 'never applies' beyond these sites is not decided.",
+        technique="Verus contracts on anchored fragments of the real code (uni payload dispatch, the whole per-stream receive loop of the uni handler with a loop invariant, serve_sync prologue, sync-candidate filter closure, broadcast-target filter closure), extracted each run; Kani (bounded) on the member table",
+        text="Proof, for all cluster ids / members / payloads, of the four decision sites: a broadcast change is queued iff its payload's cluster id equals ours, and along a whole stream every queued change was carried by a frame declaring our cluster id whatever came before on that stream; serve_sync ends with exactly one Rejection(DifferentCluster) message and no data for a foreign cluster id; sync candidates and broadcast targets are other members of the same cluster. End-to-end 'never applies' beyond these sites is not decided.",
         note="Assumed: `.instrument(..).await` on the one awaited write is replaced by a ghost log; speedy default_on_eof; members map contents. The uni handler's once-per-connection capture of the cluster id is noted, not covered.",
     ),
     "C17": dict(
@@ -62,8 +62,8 @@ CLAIMS = {
         note="Assumed: std BTreeMap contract; Kani unit replaces BTreeMap/CircularBuffer/ActorId/SocketAddr/Timestamp by small stand-ins (listed in evidence). SWIM premise: live peers do not share an address; down notifications carry the identity's own address.",
     ),
     "C12": dict(
-        technique="Verus function contracts on the extracted real klukai-client SubscriptionStream::{handle_change,handle_eoq} + verified driver (inductive consecutive-ids statement)",
-        text="Unbounded proof (all u64 ids, all event sequences) of the client-library clause: an event is accepted iff its id is exactly last+1, a gap is reported as MissedChange{expected,got} and leaves the resume point unchanged. The server-side clause (catch-up vs. live races) is concurrent async code and is explicitly not decided.",
+        technique="Verus function contracts on the extracted real klukai-client SubscriptionStream::{handle_change,handle_eoq} + verified driver (inductive consecutive-ids statement); Verus contracts with loop invariants on two anchored fragments of the real server-side catch_up_sub (catch-up retry loop, hand-over to the buffered live events); structural obligations on the lag/overflow exits",
+        text="Unbounded proof (all u64 ids, all event sequences) of the client-library clause: an event is accepted iff its id is exactly last+1, a gap is reported as MissedChange{expected,got} and leaves the resume point unchanged. Server clause: for every outcome of the change-log reads and every run of buffered live events (the two points where the race with committed changes enters), the ids written to the subscriber during catch-up and hand-over are consecutive from the snapshot/resume point, the catch-up loop only hands over once it has reached the first buffered live event, every newer buffered event is forwarded exactly once, and a lagged broadcast receiver / overflowing buffer stops the stream. Not decided: the snapshot read itself (all_rows in one read transaction) and pruning of the change log below the resume point.",
         note="Field projection of SubscriptionStream to (observed_eoq,last_change_id); SubscriptionError reduced to the one variant the functions build; ids < u64::MAX assumed.",
     ),
     "C02": dict(
